@@ -10,8 +10,10 @@ import (
 
 	"github.com/consensys/gnark-crypto/ecc"
 	bls12377 "github.com/consensys/gnark-crypto/ecc/bls12-377"
+	fr377 "github.com/consensys/gnark-crypto/ecc/bls12-377/fr"
 	bls12381 "github.com/consensys/gnark-crypto/ecc/bls12-381"
 	"github.com/consensys/gnark/frontend"
+	"github.com/consensys/gnark/std/algebra/algopts"
 	"github.com/consensys/gnark/std/algebra/emulated/sw_bls12381"
 	"github.com/consensys/gnark/std/algebra/native/sw_bls12377"
 	"github.com/consensys/gnark/test"
@@ -159,6 +161,69 @@ func c16Misc(rep *Report, rng *RNG) {
 			}
 			k := k
 			decide(fmt.Sprintf("sw_bls12377.GT.IsEqual(x, x with coefficient %d changed)", k), 0, func(claim int) error { return run(y, claim) })
+		}
+	}
+}
+
+// ---- two-chain native curve (BLS12-377 in BW6-761): MultiScalarMul with complete arithmetic, points at infinity in every position
+type msm377Circuit struct {
+	P []sw_bls12377.G1Affine
+	S []sw_bls12377.Scalar
+	R sw_bls12377.G1Affine `gnark:",public"`
+}
+
+func (c *msm377Circuit) Define(api frontend.API) error {
+	cr, err := sw_bls12377.NewCurve(api)
+	if err != nil {
+		return err
+	}
+	ps := make([]*sw_bls12377.G1Affine, len(c.P))
+	ss := make([]*sw_bls12377.Scalar, len(c.S))
+	for i := range c.P {
+		ps[i], ss[i] = &c.P[i], &c.S[i]
+	}
+	res, err := cr.MultiScalarMul(ps, ss, algopts.WithCompleteArithmetic())
+	if err != nil {
+		return err
+	}
+	cr.AssertIsEqual(res, &c.R)
+	return nil
+}
+
+func c16MSM377(rep *Report, rng *RNG) {
+	_, _, g1, _ := bls12377.Generators()
+	for n := 2; n <= 4; n++ {
+		for inf := -1; inf < n; inf++ { // index of the point at infinity (-1: none)
+			pts := make([]bls12377.G1Affine, n)
+			scs := make([]fr377.Element, n)
+			var want bls12377.G1Jac
+			for i := range pts {
+				if i != inf {
+					pts[i].ScalarMultiplication(&g1, new(big.Int).Add(rng.Big(big.NewInt(1<<50)), big.NewInt(3)))
+				}
+				scs[i].SetBigInt(rng.Big(fr377.Modulus()))
+				var t bls12377.G1Jac
+				var bi big.Int
+				t.FromAffine(&pts[i])
+				t.ScalarMultiplication(&t, scs[i].BigInt(&bi))
+				want.AddAssign(&t)
+			}
+			var wa bls12377.G1Affine
+			wa.FromJacobian(&want)
+			tmpl := &msm377Circuit{P: make([]sw_bls12377.G1Affine, n), S: make([]sw_bls12377.Scalar, n)}
+			asg := &msm377Circuit{P: make([]sw_bls12377.G1Affine, n), S: make([]sw_bls12377.Scalar, n), R: sw_bls12377.NewG1Affine(wa)}
+			for i := range pts {
+				asg.P[i] = sw_bls12377.NewG1Affine(pts[i])
+				asg.S[i] = sw_bls12377.NewScalar(scs[i])
+			}
+			var err error
+			pm := catchPanic(func() { err = test.IsSolved(tmpl, asg, ecc.BW6_761.ScalarField()) })
+			name := fmt.Sprintf("sw_bls12377.MultiScalarMul(complete, %d points, infinity at %d)", n, inf)
+			rep.Eval("msm377|"+name, true)
+			rep.Count("msm377")
+			if pm != "" || err != nil {
+				rep.Fail("c16:differs-from-native:msm377", name+" does not return the native multi-scalar multiplication: "+pm+shortErr(err), c16Desc{Curve: "bls12-377 (native, in BW6-761)", Op: "MultiScalarMul", Class: name})
+			}
 		}
 	}
 }
